@@ -4,7 +4,7 @@ every output line with the reference text."""
 import random
 
 from .. import refcal as R
-from ..batch import run_lines, BatchError
+from ..batch import run_lines, run_args, BatchError
 from ..core import Sub
 from .common import Viol, boundary, slice_range
 
@@ -75,6 +75,19 @@ def sweep(ctx, sub, V, rep, durs, days, expect, tagf, nontrivial=None, extra_arg
                         case["outrep"] = extra_args[1]
                 V.add(tagf(info), case, expected=x, actual=o,
                       weight=sum(abs(k) for k, _ in info) * 1000000 + n)
+        # the same through the argument route (`dadd DATE DUR...`), which has its own code in main():
+        # two of the inputs per duration
+        for j in sorted(set((0, len(ins) // 2))):
+            r = run_args(ctx.build, "dadd", list(extra_args) + args0 + ["--", ins[j]] + pre + dargs)
+            o = (r.lines() or [""])[0]
+            sub.evaluations += 1
+            if r.crashed or o != exps[j]:
+                case = {"rep": rep, "dur": dargs, "in": ins[j], "n": ns[j], "route": "arg"}
+                if extra_args:
+                    case["extra"] = list(extra_args)
+                    if extra_args[0] == "-f" and extra_args[1] in REPS:
+                        case["outrep"] = extra_args[1]
+                V.add("arg:" + tagf(info), case, expected=exps[j], actual=r.brief() if r.crashed else o)
         sub.evaluations += len(ins)
         if nontrivial:
             sub.nontrivial_count += sum(1 for n in ns if nontrivial(n, info))
@@ -91,6 +104,11 @@ def replay_one(ctx, case, expect_text):
             return {"detail": str(e), "result": e.result.brief()}
         return None
     pre = ["+0s"] if rep == "epoch" else []
+    if case.get("route") == "arg":
+        r = run_args(ctx.build, "dadd", list(case.get("extra", [])) + args0 + ["--", case["in"]] + pre + case["dur"])
+        out = r.lines() or [""]
+        return None if (out[0] == expect_text and not r.crashed) else {
+            "in": case["in"], "dur": case["dur"], "route": "argument", "expected": expect_text, "actual": out[0]}
     out, _ = run_lines(ctx.build, "dadd", list(case.get("extra", [])) + args0 + ["--"] + pre + case["dur"], [case["in"]])
     return None if out[0] == expect_text else {"in": case["in"], "dur": case["dur"],
                                               "expected": expect_text, "actual": out[0]}
